@@ -245,6 +245,7 @@ theorem C09_step_inv (s : St) (op : Op) (hI : C09_Inv s) : C09_Inv (step s op).1
       · intro _; exact ⟨hsh, fun _ _ => rfl⟩
     · simp only [Bool.not_eq_true] at hs
       simp only [hs, Bool.not_false, ite_true]; exact hI
+  | abandon w => exact hI
   | observe w =>
     simp only [step]
     split
@@ -363,6 +364,10 @@ theorem C09_pending_is_watchable (s : St) (n h : Nat) (hp : (h, n) ∈ s.pending
   have h2 : s.pending.any (fun p => p.1 = h) = true := by
     rw [List.any_eq_true]; exact ⟨(h, n), hp, by simp⟩
   simp [step, hc, h2, addWaiter, hs]
+
+/-- a party that stops waiting changes nothing for anybody else: the step is the identity on the
+monitor's state (its channel is buffered, so the later delivery to it cannot block) -/
+theorem C09_abandon_is_identity (s : St) (w : Nat) : (step s (.abandon w)).1 = s := rfl
 
 /-- **Pending list**: never shows a transaction the node did not send -/
 theorem C09_pending_subset_submitted (ops : List Op) : ∀ p ∈ (final init ops).pending, p ∈ (final init ops).submitted :=
